@@ -306,12 +306,14 @@ def run_overlaps(pe, acc, case):
                     b2 = [c + 40 for c in base]
                 else:
                     b2 = base
-                for ca, cb in itertools.product(('auto', 'list'), repeat=2):
-                    a = pe.Obs([alpha.data('ar1', b2, alpha.rng('c06ov', bname, m, pname, 'a'), 1.0, 0.1)], ['A|r1'], idl=[alpha.idl_carrier(b2, ca)])
-                    b = pe.Obs([alpha.data('white', other, alpha.rng('c06ov', bname, m, pname, 'b'), 0.5, 0.2)], ['A|r1'], idl=[alpha.idl_carrier(other, cb)])
+                for (ca, cb), scale in itertools.product(itertools.product(('auto', 'list'), repeat=2), (1.0, 1e-5, 1e-8, 1e6)):
+                    if scale != 1.0 and (ca, cb) != ('auto', 'list'):
+                        continue      # data of very small / large magnitude (the correlation does not depend on the scale): one carrier pair
+                    a = pe.Obs([scale * alpha.data('ar1', b2, alpha.rng('c06ov', bname, m, pname, 'a'), 1.0, 0.1)], ['A|r1'], idl=[alpha.idl_carrier(b2, ca)])
+                    b = pe.Obs([scale * alpha.data('white', other, alpha.rng('c06ov', bname, m, pname, 'b'), 0.5, 0.2)], ['A|r1'], idl=[alpha.idl_carrier(other, cb)])
                     for pi in range(len(PARAMS)):
-                        sub = dict(case, base=bname, common=m, where=pname, carriers=[ca, cb], pi=pi)
-                        if 'base' in case and (case['base'], case['common'], case['where'], case['carriers'], case['pi']) != (bname, m, pname, [ca, cb], pi):
+                        sub = dict(case, base=bname, common=m, where=pname, carriers=[ca, cb], pi=pi, scale=scale)
+                        if 'base' in case and (case['base'], case['common'], case['where'], case['carriers'], case['pi'], case.get('scale', 1.0)) != (bname, m, pname, [ca, cb], pi, scale):
                             continue
                         with warnings.catch_warnings():
                             warnings.simplefilter('ignore')
@@ -335,9 +337,9 @@ def run_overlaps(pe, acc, case):
                         elif not abs(cov[0, 1] - r * a.dvalue * b.dvalue) <= 1e-12 * a.dvalue * b.dvalue or not np.allclose(covr, cov[::-1, ::-1], rtol=1e-12, atol=1e-300):
                             bad = 'covariance %.15g, expected %.15g; reversed list %s' % (cov[0, 1], r * a.dvalue * b.dvalue, covr.tolist())
                         if bad:
-                            acc.fail('overlap:pearson', sub, '%s chain, partner %s with %d common configuration(s), carriers %s/%s, params %s: %s' % (bname, pname, m, ca, cb, PARAMS[pi], bad))
+                            acc.fail('overlap:pearson', sub, '%s chain (data scaled by %g), partner %s with %d common configuration(s), carriers %s/%s, params %s: %s' % (bname, scale, pname, m, ca, cb, PARAMS[pi], bad))
                         else:
-                            acc.ok(('ov', bname, m, pname, ca, cb, pi), True, 'overlap-ok')
+                            acc.ok(('ov', bname, m, pname, ca, cb, pi, scale), True, 'overlap-ok')
     # observables without error (constant data, an external input with variance zero) among the list members, at every position:
     # the rest of the matrix is the matrix of the list without them, their rows and columns are zero, the statements about the
     # diagonal hold
